@@ -1063,7 +1063,7 @@ def run_l2(cfg):
     return st, out, seen, calls, list(LOG)
 
 
-def oracle_l2(cfg, st, out, seen):
+def oracle_l2(cfg, st, out, seen, log):
     """what the author-defined function saw, sample by sample"""
     from mitxgraders.helpers.calc import evaluator
     from mitxgraders.helpers.calc.mathfuncs import DEFAULT_FUNCTIONS, DEFAULT_SUFFIXES
@@ -1132,6 +1132,12 @@ def oracle_l2(cfg, st, out, seen):
                 if not (isinstance(x, (int, float)) and float(x).is_integer() and lo <= x <= lo + 9):
                     fails.append('sample %d: %s seen as %r, outside its sampling set [%d..%d]%s'
                                  % (i, nm, vals[nm], lo, lo + 9, '/2' if spec[1] == 'half' else ''))
+                # a sampling set used by this one name only: the value used in sample i is its i-th draw
+                shared = [u for u in used_instances if is_instance_name(u, heads) == nm]
+                mine = [v for tag, v in log if tag == nm]
+                if nm in variables and not shared and len(mine) == k and not same_value(complex(mine[i]), complex(vals[nm])):
+                    fails.append('sample %d: %s seen as %r but draw number %d of its sampling set was %r'
+                                 % (i, nm, vals[nm], i, mine[i]))
     return fails
 
 
@@ -1145,7 +1151,7 @@ def level2(ctx, res, rng):
         cfg = gen_l2(rng, 'l2/%d/%d' % (ctx['seed'], g))
         st, out, seen, calls, log = run_l2(cfg)
         res.oracle_evals += 1
-        for text in oracle_l2(cfg, st, out, seen):
+        for text in oracle_l2(cfg, st, out, seen, log):
             res.witnesses.append({'key': 'L2:' + cfg_key(cfg), 'kind': 'grader-call', 'cfg': cfg, 'what': text})
             break
         dist['L2 ' + cfg['variant']] = dist.get('L2 ' + cfg['variant'], 0) + 1
@@ -1314,7 +1320,7 @@ def replay(w):
             cfg['consts'], st, out, '\n'.join(fails[:3]))
     if kind == 'grader-call':
         st, out, seen, calls, log = run_l2(cfg)
-        fails = oracle_l2(cfg, st, out, seen)
+        fails = oracle_l2(cfg, st, out, seen, log)
         return bool(fails), 'FormulaGrader(variables=%r, numbered_vars=%r, sample_from=%r, user_constants=%r, samples=%d) on rec(%s) -> %s %r\n%s' % (
             cfg['variables'], cfg['numbered'], {s: (v if v[0] != 'dep' else render(fromlist(v[1]))) for s, v in cfg['sf'].items()},
             cfg['user_consts'], cfg['samples'], ','.join(cfg['watch']), st, out, '\n'.join(fails[:3]))
